@@ -22,12 +22,18 @@ const (
 	dHostile = 3
 	dReenter = 4
 	dNested  = 7 // start a nested traversal on the member and return what it returns (errors propagate)
+	dPanic   = 5 // as a DECISION: the handler panics (the caller recovers and goes on using its Buffer)
 	// recorded only
 	dDeclineForced = 5 // asked to consume but the member is not a well-formed value
 	dReentryResult = 6
 )
 
 func mkDec(kind, arg int) int { return kind + 8*arg }
+
+// simHandlerPanic is what a panicking simulated handler panics with.
+type simHandlerPanic struct{}
+
+func (simHandlerPanic) String() string { return "sim-handler-panic: the handler panicked (recovered by the caller)" }
 
 type simErrPtr struct{ id int }
 
@@ -403,6 +409,12 @@ func (e *hEnv) handle(doc, key []byte, hasKey bool, data []byte, count *int) (in
 		e.fault("H-hostile")
 	case dDecline:
 		e.fault("H-decline")
+	case dPanic:
+		// the call is aborted by a panic that unwinds through the library; the caller recovers
+		rec.Dec = 9
+		e.cbs = append(e.cbs, rec)
+		e.fault("H-panic")
+		panic(simHandlerPanic{})
 	case dNested:
 		// only when the member is a well-formed container of the matching kind
 		// (otherwise a well-behaved handler has nothing to traverse and declines)
